@@ -1,9 +1,12 @@
 /-
   Model driver for C18: `hit:32  nsubs (npts (x y)*)* nq (x y)*`
   → `w (winding hitEvenOdd hitNonZero)* area <a> dir (pos|neg)*`
+  `curved  name tol nsubs (first nseg (L to | Q ctrl to | C ctrl1 ctrl2 to)*)* nq (x y)*`
+  → the same token sequence (or `panic` where the flattening's `unwrap` panics)
 -/
 import LyonVerif.Drive.Common
 import LyonVerif.Model.Algo.Winding
+import LyonVerif.Model.Algo.WindingCurves
 
 namespace Lyon.Drive.C18
 open Lyon Lyon.Drive Lyon.Winding
@@ -34,9 +37,48 @@ def hit (v : Array String) : String :=
   unwords (["w"] ++ ws ++ ["area", fx (pathArea subs), "dir"]
     ++ subs.map (fun s => if computeWinding s then "pos" else "neg"))
 
+/-- `n` events starting at token `i` -/
+def rdSegs (v : Array String) : Nat → Nat → List (CSeg α) × Nat
+  | 0, i => ([], i)
+  | n+1, i =>
+    let k := v.getD i ""
+    if k == "Q" then
+      let (r, j) := rdSegs v n (i + 5)
+      (CSeg.quad (rdP v (i+1)) (rdP v (i+3)) :: r, j)
+    else if k == "C" then
+      let (r, j) := rdSegs v n (i + 7)
+      (CSeg.cubic (rdP v (i+1)) (rdP v (i+3)) (rdP v (i+5)) :: r, j)
+    else
+      let (r, j) := rdSegs v n (i + 3)
+      (CSeg.line (rdP v (i+1)) :: r, j)
+
+def rdCSubs (v : Array String) : Nat → Nat → List (CSub α) × Nat
+  | 0, i => ([], i)
+  | n+1, i =>
+    let first : P α := rdP v i
+    let (segs, j) := rdSegs v (rdNat v (i+2)) (i+3)
+    let (r, k) := rdCSubs v n j
+    (⟨first, segs⟩ :: r, k)
+
+def fuelMax : Nat := 200000
+
+def curved [Transc α] [FlatConst α] (v : Array String) : String :=
+  let tol : α := rd v 1
+  let (path, j) : List (CSub α) × Nat := rdCSubs v (rdNat v 2) 3
+  let nq := rdNat v j
+  let qs : List (P α) := rdPts v nq (j+1)
+  let ws := qs.map (fun q => (windingAtC q tol path).map (fun w =>
+    toString w ++ " " ++ fb (hitRule true w) ++ " " ++ fb (hitRule false w)))
+  match pathAreaC tol fuelMax path Scalar.zero with
+  | none => "panic"
+  | some area =>
+    if ws.any Option.isNone then "panic" else
+    unwords (["w"] ++ ws.map (·.getD "") ++ ["area", fx area, "dir"]
+      ++ path.map (fun s => if computeWindingC s then "pos" else "neg"))
+
 def families : List Family := [
   ⟨"hit", hit (α := Float32), hit (α := Float)⟩,
-  Family.plain "curved" (fun _ => "-") ]
+  ⟨"curved", curved (α := Float32), curved (α := Float)⟩ ]
 
 end Lyon.Drive.C18
 
